@@ -201,7 +201,16 @@ class PathState:
         if d[0] == 'const' and d[1] is not None:
             return d[1]
         if d[0] == 'discr':
-            x = strip(d[1])
+            # the value whose discriminant is read: only wrappers that keep the value's identity are removed (a payload projection or a
+            # conversion call yields a different value, whose discriminant is not the container's)
+            x = d[1]
+            while True:
+                if x[0] in ('ref', 'deref', 'refm'):
+                    x = x[1]
+                elif x[0] == 'via' and (x[1].endswith('::Try>::branch') or x[1].endswith('::clone') or x[1].endswith('::borrow') or x[1].endswith('::as_ref') or x[1].endswith('::as_mut') or x[1].endswith('::deref') or x[1].endswith('::deref_mut')):
+                    x = x[2]
+                else:
+                    break
             if x[0] == 'call' and x[1].endswith('::from_residual'):
                 return 1        # the value built from a residual is Err(..) / None-like: discriminant 1 for Result and for ControlFlow::Break
             if x[0] == 'agg' and len(x) > 5 and x[5] is not None:
